@@ -244,7 +244,7 @@ def build_fn(unit, file_spec, item_spec, opts, sections, log, probes=False):
         if re.match(r"pub (struct)\b", text):
             text = rewrite.publicise_fields(text)
     if not is_fn:
-        if sections:
+        if any(not k.startswith("sub") for k, _ in sections):
             raise AssembleError("contract sections on a non-fn item " + item_spec)
         return lead + text, info, []
 
